@@ -319,17 +319,12 @@ func r20_4(c *Ctx, r *Report) {
 					}
 					ev := &evaluator{leaf: leaf, inline: inlineLibrary}
 					var pushed []string
-					ev.visit = func(fr *evalFrame, call *ssa.Call) {
-						callee := call.Common().StaticCallee()
-						if callee == nil || !strings.HasPrefix(callee.String(), "(*container/list.List).Push") || len(call.Common().Args) != 2 {
-							return
+					ev.collectList(&pushed, func(o interface{}, ok bool) string {
+						if !ok {
+							return "?"
 						}
-						if o, ok := ev.eval(fr, unwrapIface(call.Common().Args[1]), 0); ok {
-							pushed = append(pushed, fmt.Sprint(o))
-						} else {
-							pushed = append(pushed, "?")
-						}
-					}
+						return fmt.Sprint(o)
+					})
 					_, outcome := ev.run(fn, nil, nil, nil, nil)
 					n++
 					var want []string
